@@ -7,8 +7,11 @@ package main
 
 import (
 	"bytes"
+	"encoding/hex"
 	"fmt"
+	"io"
 	"math/rand"
+	"mime/multipart"
 	"net/http"
 	"net/http/httptest"
 	"net/url"
@@ -31,6 +34,10 @@ type c12Req struct {
 	// produce (learned by the harness from a safe request with the same stream); Guess
 	// names where it is put: "header:<Name>[:prefix]", "query:<name>" or "form:<name>"
 	GuessFresh string `json:"guess_fresh,omitempty"`
+	// PathVals: values of the route's path parameters (case.Route), in order
+	PathVals []string `json:"path_vals,omitempty"`
+	// Multipart: the body (Form) is sent as multipart/form-data instead of urlencoded
+	Multipart bool `json:"multipart,omitempty"`
 }
 
 type c12Case struct {
@@ -40,33 +47,134 @@ type c12Case struct {
 	ContextKey  string `json:"context_key"`
 	// ErrorHandler: 0 = nil; 1 = custom handler that writes its own 418 and returns nil;
 	// 2 = custom handler that returns its own 409 error
-	ErrorHandler int      `json:"error_handler,omitempty"`
-	Reqs         []c12Req `json:"reqs"`
+	ErrorHandler int `json:"error_handler,omitempty"`
+	// Ctor: 0 = CSRFWithConfig(cfg); 1 = CSRF() (every config field of the case must be zero)
+	Ctor           int    `json:"ctor,omitempty"`
+	CookiePath     string `json:"cookie_path,omitempty"`
+	CookieDomain   string `json:"cookie_domain,omitempty"`
+	CookieMaxAge   int    `json:"cookie_max_age,omitempty"`
+	CookieSecure   bool   `json:"cookie_secure,omitempty"`
+	CookieHTTPOnly bool   `json:"cookie_http_only,omitempty"`
+	CookieSameSite int    `json:"cookie_same_site,omitempty"` // http.SameSite 0..4
+	// Skipper: config.Skipper skips the requests with a non-empty X-Skip header
+	Skipper bool `json:"skipper,omitempty"`
+	// Extra: other middlewares on the same Echo drawing from the same random source:
+	// 1 = RequestID() registered after CSRF, 2 = RequestID() before CSRF, 3 = a second CSRF
+	// instance (cookie "_csrf2", context key "csrf2", lookup "header:X-Csrf2,query:csrf2",
+	// TokenLength Len2) after the first, 4 = CSRF, RequestID(), second CSRF
+	Extra int `json:"extra,omitempty"`
+	Len2  int `json:"len2,omitempty"`
+	// Route: names of the path parameters of the route ("/p/:a/:b..."); empty = route "/"
+	Route []string `json:"route,omitempty"`
+	// Mount: where the middlewares are registered: 0 = e.Use, 1 = on the route itself, 2 = on a group "/grp"
+	Mount int `json:"mount,omitempty"`
+	// RealRandom: crypto/rand is not replaced (oracle only, no model comparison)
+	RealRandom bool     `json:"real_random,omitempty"`
+	Reqs       []c12Req `json:"reqs"`
 }
 
-func (c *c12Case) effCookie() string {
-	if c.CookieName == "" {
-		return "_csrf"
-	}
-	return c.CookieName
+// c12Inst: one CSRF instance as configured, with the values CSRFWithConfig's defaults give
+type c12Inst struct {
+	raw      middleware.CSRFConfig
+	ctor     int
+	eh       int
+	skipper  bool
+	cookie   string
+	key      string
+	lookup   string
+	length   int
+	maxAge   int
+	skipSaid bool // what the configured Skipper returned during the current request
 }
-func (c *c12Case) effKey() string {
-	if c.ContextKey == "" {
-		return "csrf"
+
+func c12Eff(s, d string) string {
+	if s == "" {
+		return d
 	}
-	return c.ContextKey
+	return s
 }
-func (c *c12Case) effLen() int {
-	if c.TokenLength == 0 {
-		return 32
+
+func (c *c12Case) instances() []*c12Inst {
+	first := &c12Inst{ctor: c.Ctor, eh: c.ErrorHandler, skipper: c.Skipper,
+		cookie: c12Eff(c.CookieName, "_csrf"), key: c12Eff(c.ContextKey, "csrf"), lookup: c12Eff(c.TokenLookup, "header:X-CSRF-Token"),
+		length: c.TokenLength, maxAge: c.CookieMaxAge}
+	first.raw = middleware.CSRFConfig{
+		TokenLength: uint8(c.TokenLength), TokenLookup: c.TokenLookup, CookieName: c.CookieName, ContextKey: c.ContextKey,
+		CookiePath: c.CookiePath, CookieDomain: c.CookieDomain, CookieMaxAge: c.CookieMaxAge, CookieSecure: c.CookieSecure,
+		CookieHTTPOnly: c.CookieHTTPOnly, CookieSameSite: http.SameSite(c.CookieSameSite),
 	}
-	return c.TokenLength
+	out := []*c12Inst{first}
+	if c.Extra == 3 || c.Extra == 4 {
+		second := &c12Inst{cookie: "_csrf2", key: "csrf2", lookup: "header:X-Csrf2,query:csrf2", length: c.Len2}
+		second.raw = middleware.CSRFConfig{TokenLength: uint8(c.Len2), TokenLookup: second.lookup, CookieName: second.cookie, ContextKey: second.key}
+		out = append(out, second)
+	}
+	for _, in := range out {
+		if in.length == 0 {
+			in.length = 32
+		}
+		if in.maxAge == 0 {
+			in.maxAge = 86400
+		}
+	}
+	return out
 }
-func (c *c12Case) effLookup() string {
-	if c.TokenLookup == "" {
-		return "header:X-CSRF-Token"
+
+// stack: the middlewares in registration order; -1 = RequestID(), k >= 0 = CSRF instance k
+func (c *c12Case) stack() []int {
+	switch c.Extra {
+	case 1:
+		return []int{0, -1}
+	case 2:
+		return []int{-1, 0}
+	case 3:
+		return []int{0, 1}
+	case 4:
+		return []int{0, -1, 1}
 	}
-	return c.TokenLookup
+	return []int{0}
+}
+
+func (c *c12Case) valid() bool {
+	if c.TokenLength < 0 || c.TokenLength > 255 || c.ErrorHandler < 0 || c.ErrorHandler > 2 || c.Extra < 0 || c.Extra > 4 ||
+		c.Len2 < 0 || c.Len2 > 255 || c.CookieMaxAge < 0 || c.CookieMaxAge > 1<<30 || c.CookieSameSite < 0 || c.CookieSameSite > 4 ||
+		c.Ctor < 0 || c.Ctor > 1 || len(c.Route) > 40 || c.Mount < 0 || c.Mount > 2 {
+		return false
+	}
+	if c.Ctor == 1 && (c.TokenLength != 0 || c.TokenLookup != "" || c.CookieName != "" || c.ContextKey != "" || c.ErrorHandler != 0 ||
+		c.CookiePath != "" || c.CookieDomain != "" || c.CookieMaxAge != 0 || c.CookieSecure || c.CookieHTTPOnly || c.CookieSameSite != 0 || c.Skipper) {
+		return false
+	}
+	for _, n := range c.Route {
+		if !c12PathSafe(n) {
+			return false
+		}
+	}
+	for _, rq := range c.Reqs {
+		if len(rq.PathVals) > len(c.Route) || (c.RealRandom && rq.GuessFresh != "") {
+			return false
+		}
+		for _, v := range rq.PathVals {
+			if !c12PathSafe(v) {
+				return false
+			}
+		}
+	}
+	return true
+}
+
+// a path segment that reaches the handler as it is: unreserved characters only
+func c12PathSafe(v string) bool {
+	if v == "" || v == "." || v == ".." {
+		return false
+	}
+	for i := 0; i < len(v); i++ {
+		ch := v[i]
+		if !(ch >= 'A' && ch <= 'Z' || ch >= 'a' && ch <= 'z' || ch >= '0' && ch <= '9' || ch == '-' || ch == '_' || ch == '.' || ch == '~') {
+			return false
+		}
+	}
+	return true
 }
 
 type c12Obs struct {
@@ -74,8 +182,11 @@ type c12Obs struct {
 	hung      bool
 	ran       bool
 	status    int
-	setCookie *string
-	ctxTok    *string
+	setCookie []*http.Cookie // per CSRF instance: the first Set-Cookie with its name
+	ctxTok    []*string      // per CSRF instance: c.Get(ContextKey) as the handler found it (the very string, not a copy)
+	rid       string         // X-Request-Id of the response
+	skipSaid  []bool
+	t0, t1    time.Time
 }
 
 // lengths for which a request was seen not to terminate (F15 on the unrepaired code): the
@@ -85,27 +196,58 @@ var c12Hung = map[int]bool{}
 type c12Built struct {
 	req     *http.Request
 	cookies []*http.Cookie
+	params  [][2]string
 }
 
-func c12Build(rq *c12Req) c12Built {
+func c12Build(c *c12Case, rq *c12Req) c12Built {
 	q := url.Values{}
 	for _, p := range rq.Query {
 		q.Add(p[0], p[1])
 	}
 	target := "/"
+	var params [][2]string
+	if len(c.Route) > 0 {
+		target = "/p"
+		for i, n := range c.Route {
+			v := "x"
+			if i < len(rq.PathVals) {
+				v = rq.PathVals[i]
+			}
+			target += "/" + v
+			params = append(params, [2]string{n, v})
+		}
+	}
+	if c.Mount == 2 {
+		target = "/grp" + target
+	}
 	if len(q) > 0 {
 		target += "?" + q.Encode()
 	}
-	var body *strings.Reader
-	f := url.Values{}
-	for _, p := range rq.Form {
-		f.Add(p[0], p[1])
+	var body io.Reader
+	ctype := ""
+	if rq.Multipart {
+		var buf bytes.Buffer
+		mw := multipart.NewWriter(&buf)
+		_ = mw.SetBoundary("c12-boundary-7MA4YWxkTrZu0gW")
+		for _, p := range rq.Form {
+			_ = mw.WriteField(p[0], p[1])
+		}
+		_ = mw.Close()
+		body, ctype = &buf, mw.FormDataContentType()
+	} else {
+		f := url.Values{}
+		for _, p := range rq.Form {
+			f.Add(p[0], p[1])
+		}
+		body = strings.NewReader(f.Encode())
+		if len(rq.Form) > 0 {
+			ctype = "application/x-www-form-urlencoded"
+		}
 	}
-	body = strings.NewReader(f.Encode())
 	req := httptest.NewRequest(http.MethodPost, target, body)
 	req.Method = rq.Method
-	if len(rq.Form) > 0 {
-		req.Header.Set("Content-Type", "application/x-www-form-urlencoded")
+	if ctype != "" {
+		req.Header.Set("Content-Type", ctype)
 	}
 	for _, h := range rq.Headers {
 		req.Header.Add(h[0], h[1])
@@ -113,13 +255,47 @@ func c12Build(rq *c12Req) c12Built {
 	for _, ck := range rq.Cookies {
 		req.AddCookie(&http.Cookie{Name: ck[0], Value: ck[1]})
 	}
-	return c12Built{req: req, cookies: req.Cookies()}
+	return c12Built{req: req, cookies: req.Cookies(), params: params}
+}
+
+// c12Source delivers the stream one byte per Read call: a bufio.Reader on top of it never holds
+// bytes it has not handed out, so what a SECOND randomString call of the same request sees does
+// not depend on whether sync.Pool hands it the same buffered reader again.
+type c12Source struct {
+	b []byte
+}
+
+func (s *c12Source) Read(p []byte) (int, error) {
+	if len(s.b) == 0 {
+		return 0, io.EOF
+	}
+	if len(p) == 0 {
+		return 0, nil
+	}
+	p[0] = s.b[0]
+	s.b = s.b[1:]
+	return 1, nil
+}
+
+type c12Env struct {
+	c     *c12Case
+	e     *echo.Echo
+	mws   []echo.MiddlewareFunc
+	grp   *echo.Group
+	insts []*c12Inst
+	ran   bool
+	ctx   []*string
 }
 
 // c12Serve runs one request with the given random stream, guarded by a deadline.
-func c12Serve(c *c12Case, e *echo.Echo, ranFlag *bool, ctxTok **string, req *http.Request, rnd []byte, needsRandom bool) c12Obs {
-	if needsRandom && c12Hung[c.effLen()] {
-		return c12Obs{hung: true}
+func c12Serve(env *c12Env, req *http.Request, rnd []byte, needsRandom bool) c12Obs {
+	c := env.c
+	if needsRandom {
+		for _, in := range env.insts {
+			if c12Hung[in.length] {
+				return c12Obs{hung: true}
+			}
+		}
 	}
 	done := make(chan c12Obs, 1)
 	go func() {
@@ -130,17 +306,30 @@ func c12Serve(c *c12Case, e *echo.Echo, ranFlag *bool, ctxTok **string, req *htt
 			}
 			done <- o
 		}()
-		restore := middleware.VerifSetRandomSource(bytes.NewReader(rnd))
-		defer restore()
-		*ranFlag, *ctxTok = false, nil
+		if !c.RealRandom {
+			restore := middleware.VerifSetRandomSource(&c12Source{b: rnd})
+			defer restore()
+		}
+		env.ran = false
+		env.ctx = make([]*string, len(env.insts))
+		for _, in := range env.insts {
+			in.skipSaid = false
+		}
 		rec := httptest.NewRecorder()
-		e.ServeHTTP(rec, req)
-		o.ran, o.status, o.ctxTok = *ranFlag, rec.Code, *ctxTok
-		for _, ck := range rec.Result().Cookies() {
-			if ck.Name == c.effCookie() {
-				v := ck.Value
-				o.setCookie = &v
-				break
+		o.t0 = time.Now()
+		env.e.ServeHTTP(rec, req)
+		o.t1 = time.Now()
+		o.ran, o.status, o.ctxTok = env.ran, rec.Code, env.ctx
+		o.rid = rec.Header().Get("X-Request-Id")
+		o.setCookie = make([]*http.Cookie, len(env.insts))
+		cks := rec.Result().Cookies()
+		for k, in := range env.insts {
+			o.skipSaid = append(o.skipSaid, in.skipSaid)
+			for _, ck := range cks {
+				if ck.Name == in.cookie {
+					o.setCookie[k] = ck
+					break
+				}
 			}
 		}
 	}()
@@ -148,7 +337,9 @@ func c12Serve(c *c12Case, e *echo.Echo, ranFlag *bool, ctxTok **string, req *htt
 	case o := <-done:
 		return o
 	case <-time.After(3 * time.Second):
-		c12Hung[c.effLen()] = true
+		for _, in := range env.insts {
+			c12Hung[in.length] = true
+		}
 		return c12Obs{hung: true}
 	}
 }
@@ -158,16 +349,17 @@ func c12IsSafe(m string) bool {
 }
 
 // every value found at a configured lookup location of the request (a superset of what the
-// extractors return: no limits, no method rule for bodies)
-func c12Held(c *c12Case, rq *c12Req, b c12Built) map[string]bool {
-	held := map[string]bool{}
-	for _, src := range strings.Split(c.effLookup(), ",") {
+// extractors return: no limits, no method rule for bodies); n = number of recognised sources
+func c12Held(lookup string, rq *c12Req, b c12Built) (held map[string]bool, n int) {
+	held = map[string]bool{}
+	for _, src := range strings.Split(lookup, ",") {
 		parts := strings.Split(src, ":")
 		if len(parts) < 2 {
 			continue
 		}
 		switch parts[0] {
 		case "header":
+			n++
 			pfx := ""
 			if len(parts) > 2 {
 				pfx = parts[2]
@@ -180,12 +372,14 @@ func c12Held(c *c12Case, rq *c12Req, b c12Built) map[string]bool {
 				}
 			}
 		case "query":
+			n++
 			for _, p := range rq.Query {
 				if p[0] == parts[1] {
 					held[p[1]] = true
 				}
 			}
 		case "form":
+			n++
 			for _, p := range rq.Form {
 				if p[0] == parts[1] {
 					held[p[1]] = true
@@ -197,27 +391,43 @@ func c12Held(c *c12Case, rq *c12Req, b c12Built) map[string]bool {
 				}
 			}
 		case "cookie":
+			n++
 			for _, ck := range b.cookies {
 				if ck.Name == parts[1] {
 					held[ck.Value] = true
 				}
 			}
+		case "param":
+			n++
+			for _, p := range b.params {
+				if p[0] == parts[1] {
+					held[p[1]] = true
+				}
+			}
 		}
 	}
-	return held
+	return held, n
 }
 
-// the stream holds `n` acceptable bytes (<= 207) within its whole buffers of n+n/4 bytes
-func c12EnoughRandom(rnd []byte, n int) bool {
+// c12Draw: what randomString(n) consumes of the stream: whole buffers of n+n/4 bytes until n
+// acceptable bytes (<= 207) have been seen; ok = false when the stream runs dry first
+func c12Draw(rnd []byte, n int) (rest []byte, ok bool) {
 	chunk := n + n/4
-	usable := len(rnd) / chunk * chunk
-	cnt := 0
-	for _, b := range rnd[:usable] {
-		if b <= 207 {
-			cnt++
+	need := n
+	for {
+		if len(rnd) < chunk {
+			return nil, false
+		}
+		for _, b := range rnd[:chunk] {
+			if b <= 207 && need > 0 {
+				need--
+			}
+		}
+		rnd = rnd[chunk:]
+		if need == 0 {
+			return rnd, true
 		}
 	}
-	return cnt >= n
 }
 
 func c12Letters(s string) bool {
@@ -230,12 +440,36 @@ func c12Letters(s string) bool {
 	return true
 }
 
+func c12MwOps(c *c12Case, insts []*c12Inst) []string {
+	st := c.stack()
+	ops := []string{wInt(len(st))}
+	for _, k := range st {
+		switch {
+		case k < 0:
+			ops = append(ops, "1")
+		case insts[k].ctor == 1:
+			ops = append(ops, "2")
+		default:
+			r := insts[k].raw
+			ops = append(ops, "0", wInt(int(r.TokenLength)), wStr(r.TokenLookup), wStr(r.CookieName), wInt(insts[k].eh),
+				wStr(r.CookiePath), wStr(r.CookieDomain), wInt(r.CookieMaxAge), wBool(r.CookieSecure), wBool(r.CookieHTTPOnly),
+				wInt(int(r.CookieSameSite)), wBool(insts[k].skipper))
+		}
+	}
+	return ops
+}
+
+func c12FirstHeader(b c12Built, name string) string { return b.req.Header.Get(name) }
+
 func c12Run(ci any) Result {
 	c := ci.(*c12Case)
-	if c.TokenLength < 0 || c.TokenLength > 255 || c.ErrorHandler < 0 || c.ErrorHandler > 2 {
+	if !c.valid() {
 		return Result{Tags: []string{"invalid-case"}}
 	}
-	ops := []string{wInt(c.TokenLength), wStr(c.TokenLookup), wStr(c.CookieName), wInt(c.ErrorHandler), wInt(len(c.Reqs))}
+	insts := c.instances()
+	stack := c.stack()
+	ops := append([]string{wStr(c.TokenLookup)}, c12MwOps(c, insts)...)
+	ops = append(ops, wInt(len(c.Reqs)))
 	tagset := map[string]bool{}
 	oracle := ""
 	fail := func(i int, msg string) {
@@ -243,72 +477,130 @@ func c12Run(ci any) Result {
 			oracle = fmt.Sprintf("request %d: %s", i, msg)
 		}
 	}
+	// the public CreateExtractors on the configured string as it is
+	xobs := "xerr"
+	func() {
+		defer func() {
+			if r := recover(); r != nil {
+				xobs = "xpanic"
+			}
+		}()
+		if exs, err := middleware.CreateExtractors(c.TokenLookup); err == nil {
+			xobs = "x" + wInt(len(exs))
+		}
+	}()
 	// construction
-	var e *echo.Echo
-	ran := false
-	var ctxTok *string
+	env := &c12Env{c: c, insts: insts}
 	cpanic := func() (p bool) {
 		defer func() {
 			if r := recover(); r != nil {
 				p = true
 			}
 		}()
-		e = echo.New()
-		cfg := middleware.CSRFConfig{
-			TokenLength: uint8(c.TokenLength),
-			TokenLookup: c.TokenLookup,
-			CookieName:  c.CookieName,
-			ContextKey:  c.ContextKey,
-		}
-		switch c.ErrorHandler {
-		case 1:
-			cfg.ErrorHandler = func(err error, ctx echo.Context) error {
-				return ctx.JSON(http.StatusTeapot, map[string]string{"message": "csrf check failed"})
+		env.e = echo.New()
+		for _, k := range stack {
+			if k < 0 {
+				env.mws = append(env.mws, middleware.RequestID())
+				continue
 			}
+			in := insts[k]
+			if in.ctor == 1 {
+				env.mws = append(env.mws, middleware.CSRF())
+				continue
+			}
+			cfg := in.raw
+			switch in.eh {
+			case 1:
+				cfg.ErrorHandler = func(err error, ctx echo.Context) error {
+					return ctx.JSON(http.StatusTeapot, map[string]string{"message": "csrf check failed"})
+				}
+			case 2:
+				cfg.ErrorHandler = func(err error, ctx echo.Context) error {
+					return echo.NewHTTPError(http.StatusConflict, "csrf check failed")
+				}
+			}
+			if in.skipper {
+				cfg.Skipper = func(ctx echo.Context) bool {
+					s := ctx.Request().Header.Get("X-Skip") != ""
+					in.skipSaid = s
+					return s
+				}
+			}
+			env.mws = append(env.mws, middleware.CSRFWithConfig(cfg))
+		}
+		switch c.Mount {
+		case 0:
+			env.e.Use(env.mws...)
 		case 2:
-			cfg.ErrorHandler = func(err error, ctx echo.Context) error {
-				return echo.NewHTTPError(http.StatusConflict, "csrf check failed")
-			}
+			env.grp = env.e.Group("/grp", env.mws...)
 		}
-		e.Use(middleware.CSRFWithConfig(cfg))
 		return false
 	}()
 	if cpanic {
-		for range c.Reqs {
-			ops = append(ops, "s", "0", "0", "0", "0", "s")
+		for _, rq := range c.Reqs {
+			b := c12Build(c, &rq)
+			ops = append(ops, c12ReqOps(&rq, b)...)
 		}
-		return Result{Ops: strings.Join(ops, " "), Obs: "cpanic", Tags: []string{"constructor-panic"}}
+		return Result{Ops: strings.Join(ops, " "), Obs: xobs + " cpanic", Tags: []string{"constructor-panic"}}
 	}
 	h := func(ctx echo.Context) error {
-		ran = true
-		if v, ok := ctx.Get(c.effKey()).(string); ok {
-			ctxTok = &v
+		env.ran = true
+		for k, in := range insts {
+			if v, ok := ctx.Get(in.key).(string); ok {
+				env.ctx[k] = &v
+			}
 		}
 		return ctx.String(http.StatusOK, "ok")
 	}
-	methods := map[string]bool{}
-	for _, rq := range c.Reqs {
-		if !methods[rq.Method] {
-			methods[rq.Method] = true
-			e.Add(rq.Method, "/", h)
+	pattern := "/"
+	if len(c.Route) > 0 {
+		pattern = "/p"
+		for _, n := range c.Route {
+			pattern += "/:" + n
 		}
 	}
-	obs := []string{wInt(len(c.Reqs))}
+	methods := map[string]bool{}
+	addMethod := func(m string) {
+		if !methods[m] {
+			methods[m] = true
+			switch c.Mount {
+			case 0:
+				env.e.Add(m, pattern, h)
+			case 1:
+				env.e.Add(m, pattern, h, env.mws...)
+			default:
+				env.grp.Add(m, pattern, h)
+			}
+		}
+	}
+	for _, rq := range c.Reqs {
+		addMethod(rq.Method)
+	}
+	obs := []string{xobs, wInt(len(c.Reqs))}
 	nontrivial := false
+	type kept struct {
+		req, inst int
+		tok       *string // the string the handler found in the context
+		cookie    string  // the Set-Cookie value of the same response
+	}
+	var retained []kept
+	fresh := map[string]int{}
 	for i := range c.Reqs {
 		rq := c.Reqs[i] // copy: GuessFresh fills in the token
 		if rq.GuessFresh != "" {
 			// learn the token this stream yields from a safe request, then present it
 			tagset["guess-fresh-token"] = true
-			probe := c12Req{Method: "GET", Rnd: rq.Rnd}
-			if !methods["GET"] {
-				methods["GET"] = true
-				e.Add("GET", "/", h)
+			probe := c12Req{Method: "GET", Rnd: rq.Rnd, PathVals: rq.PathVals}
+			for _, hd := range rq.Headers {
+				if strings.EqualFold(hd[0], "X-Request-Id") || strings.EqualFold(hd[0], "X-Skip") {
+					probe.Headers = append(probe.Headers, hd)
+				}
 			}
-			po := c12Serve(c, e, &ran, &ctxTok, c12Build(&probe).req, rq.Rnd, true)
+			addMethod("GET")
+			po := c12Serve(env, c12Build(c, &probe).req, rq.Rnd, true)
 			tok := ""
-			if po.setCookie != nil {
-				tok = *po.setCookie
+			if len(po.setCookie) > 0 && po.setCookie[0] != nil {
+				tok = po.setCookie[0].Value
 			}
 			parts := strings.SplitN(rq.GuessFresh, ":", 3)
 			switch parts[0] {
@@ -324,44 +616,28 @@ func c12Run(ci any) Result {
 				rq.Form = append(append([][2]string(nil), rq.Form...), [2]string{parts[1], tok})
 			}
 		}
-		b := c12Build(&rq)
-		var reqCookie *string
-		for _, ck := range b.cookies {
-			if ck.Name == c.effCookie() {
-				v := ck.Value
-				reqCookie = &v
-				break
+		b := c12Build(c, &rq)
+		reqCookie := make([]*string, len(insts))
+		for k, in := range insts {
+			for _, ck := range b.cookies {
+				if ck.Name == in.cookie {
+					v := ck.Value
+					reqCookie[k] = &v
+					break
+				}
 			}
 		}
-		// model op
-		ops = append(ops, wStr(rq.Method), wInt(len(b.cookies)))
-		for _, ck := range b.cookies {
-			ops = append(ops, wStr(ck.Name), wStr(ck.Value))
-		}
-		var keys []string
-		nh := 0
-		for k, vs := range b.req.Header {
-			keys = append(keys, k)
-			nh += len(vs)
-		}
-		sort.Strings(keys)
-		ops = append(ops, wInt(nh))
-		for _, k := range keys {
-			for _, v := range b.req.Header[k] {
-				ops = append(ops, wStr(k), wStr(v))
+		ops = append(ops, c12ReqOps(&rq, b)...)
+		needsRandom := false
+		for k := range insts {
+			if reqCookie[k] == nil {
+				needsRandom = true
 			}
 		}
-		ops = append(ops, wInt(len(rq.Query)))
-		for _, p := range rq.Query {
-			ops = append(ops, wStr(p[0]), wStr(p[1]))
+		if c.Extra == 1 || c.Extra == 2 || c.Extra == 4 {
+			needsRandom = true
 		}
-		ops = append(ops, wInt(len(rq.Form)))
-		for _, p := range rq.Form {
-			ops = append(ops, wStr(p[0]), wStr(p[1]))
-		}
-		ops = append(ops, wBytes(rq.Rnd))
-
-		o := c12Serve(c, e, &ran, &ctxTok, b.req, rq.Rnd, reqCookie == nil)
+		o := c12Serve(env, b.req, rq.Rnd, needsRandom)
 		safe := c12IsSafe(rq.Method)
 		// tags
 		if safe {
@@ -373,9 +649,9 @@ func c12Run(ci any) Result {
 			}
 		}
 		switch {
-		case reqCookie == nil:
+		case reqCookie[0] == nil:
 			tagset["cookie-absent"] = true
-		case *reqCookie == "":
+		case *reqCookie[0] == "":
 			tagset["cookie-empty"] = true
 		default:
 			tagset["cookie-present"] = true
@@ -384,55 +660,76 @@ func c12Run(ci any) Result {
 		case o.hung:
 			obs = append(obs, "hang")
 			tagset["hang"] = true
-			fail(i, fmt.Sprintf("the request did not complete within 3 s: randomString(%d) does not terminate", c.effLen()))
+			fail(i, fmt.Sprintf("the request did not complete within 3 s: randomString(%d) does not terminate", insts[0].length))
 			continue
 		case o.panicked:
 			obs = append(obs, "2")
 			tagset["panic"] = true
-			if reqCookie != nil || c12EnoughRandom(rq.Rnd, c.effLen()) {
+			if c.RealRandom {
+				fail(i, "panic with the real random source")
+				continue
+			}
+			// justified only if some draw of the stack, in order, finds the stream dry
+			stream, dry := rq.Rnd, false
+			for _, k := range stack {
+				var ok bool
+				switch {
+				case k < 0:
+					if c12FirstHeader(b, "X-Request-Id") != "" {
+						continue
+					}
+					stream, ok = c12Draw(stream, 32)
+				case reqCookie[k] != nil || (insts[k].skipper && c12FirstHeader(b, "X-Skip") != ""):
+					continue
+				default:
+					stream, ok = c12Draw(stream, insts[k].length)
+				}
+				if !ok {
+					dry = true
+					break
+				}
+			}
+			if !dry {
 				fail(i, "panic although the random source had enough bytes (or was not needed)")
 			}
 			continue
 		case o.ran:
-			sc, ct := "<none>", "<none>"
-			if o.setCookie != nil {
-				sc = wStr(*o.setCookie)
+			line := []string{"1", wInt(len(stack))}
+			for _, k := range stack {
+				if k < 0 {
+					line = append(line, "r", wStr(o.rid))
+					continue
+				}
+				if o.setCookie[k] == nil && o.ctxTok[k] == nil {
+					line = append(line, "k")
+					continue
+				}
+				sc, ct := "<none>", "<none>"
+				attrs := []string{"-", "-", "-", "-", "-", "-"}
+				if ck := o.setCookie[k]; ck != nil {
+					sc = wStr(ck.Value)
+					// Expires = time.Now() + MaxAge, formatted in whole seconds: with the instants before
+					// and after the request truncated to seconds, Expires - before lies in [MaxAge, MaxAge + (after - before)]
+					d := int(ck.Expires.Unix() - o.t0.Unix())
+					slack := int(o.t1.Unix() - o.t0.Unix())
+					if want := insts[k].maxAge; d >= want && d <= want+slack {
+						d = want
+					}
+					attrs = []string{wStr(ck.Path), wStr(ck.Domain), wInt(d), wBool(ck.Secure), wBool(ck.HttpOnly), wInt(int(ck.SameSite))}
+				}
+				if o.ctxTok[k] != nil {
+					ct = wStr(*o.ctxTok[k])
+				}
+				line = append(line, "c", sc, ct)
+				line = append(line, attrs...)
 			}
-			if o.ctxTok != nil {
-				ct = wStr(*o.ctxTok)
-			}
-			obs = append(obs, "1", sc, ct)
+			obs = append(obs, line...)
 		default:
 			obs = append(obs, "0", wInt(o.status))
 		}
-		// ---- model-free oracle: the property itself
-		held := c12Held(c, &rq, b)
+		// ---- model-free oracle: the property itself, for every CSRF instance in front of the handler
 		if o.ran {
 			tagset["passed"] = true
-			if !safe {
-				nontrivial = true
-				tagset["unsafe-passed"] = true
-				if reqCookie == nil {
-					// Only a client that knows what the random source will deliver can do this
-					// (the harness does, see GuessFresh); it must have presented exactly the fresh token.
-					if o.setCookie == nil || !held[*o.setCookie] {
-						fail(i, fmt.Sprintf("unsafe %q request passed without the CSRF cookie", rq.Method))
-					} else {
-						tagset["fresh-token-presented"] = true
-					}
-				} else if !held[*reqCookie] {
-					fail(i, fmt.Sprintf("unsafe %q request passed although no configured lookup location holds the cookie token %q", rq.Method, *reqCookie))
-				}
-			}
-			if o.setCookie == nil {
-				fail(i, "passed without a Set-Cookie for the CSRF cookie")
-			} else if o.ctxTok == nil || *o.ctxTok != *o.setCookie {
-				fail(i, fmt.Sprintf("Set-Cookie token %q differs from the context token %v", *o.setCookie, o.ctxTok))
-			} else if reqCookie != nil && *o.setCookie != *reqCookie {
-				fail(i, fmt.Sprintf("token %q is not the request cookie's %q", *o.setCookie, *reqCookie))
-			} else if reqCookie == nil && (len(*o.setCookie) != c.effLen() || !c12Letters(*o.setCookie)) {
-				fail(i, fmt.Sprintf("fresh token %q: want %d ASCII letters", *o.setCookie, c.effLen()))
-			}
 			if o.status != http.StatusOK {
 				fail(i, fmt.Sprintf("handler ran but status %d", o.status))
 			}
@@ -445,10 +742,80 @@ func c12Run(ci any) Result {
 			if o.status < 400 || o.status > 499 {
 				fail(i, fmt.Sprintf("rejected with status %d, not 4xx", o.status))
 			}
-			if reqCookie != nil && len(held) > 0 {
-				nontrivial = true // a near miss: cookie and client token(s) present, no match
+		}
+		for k, in := range insts {
+			held, nsrc := c12Held(in.lookup, &rq, b)
+			name := ""
+			if k > 0 {
+				name = fmt.Sprintf("CSRF instance %d: ", k+1)
+			}
+			if !o.ran {
+				if reqCookie[k] != nil && len(held) > 0 {
+					nontrivial = true // a near miss: cookie and client token(s) present, no match
+				}
+				continue
+			}
+			if o.skipSaid[k] {
+				tagset["skipped-by-skipper"] = true
+				if o.setCookie[k] != nil || o.ctxTok[k] != nil {
+					fail(i, name+"the Skipper skipped the request but a token was published")
+				}
+				continue // the middleware is configured not to act on this request
+			}
+			if !safe {
+				nontrivial = true
+				tagset["unsafe-passed"] = true
+				switch {
+				case nsrc == 0:
+					// no source of the lookup string is a known one: no extractor, nothing is validated (tie only)
+					tagset["lookup-without-known-source(tie only)"] = true
+				case reqCookie[k] == nil:
+					// Only a client that knows what the random source will deliver can do this
+					// (the harness does, see GuessFresh); it must have presented exactly the fresh token.
+					if o.setCookie[k] == nil || !held[o.setCookie[k].Value] {
+						fail(i, fmt.Sprintf("%sunsafe %q request passed without the CSRF cookie", name, rq.Method))
+					} else {
+						tagset["fresh-token-presented"] = true
+					}
+				case !held[*reqCookie[k]]:
+					fail(i, fmt.Sprintf("%sunsafe %q request passed although no configured lookup location holds the cookie token %q", name, rq.Method, *reqCookie[k]))
+				}
+			}
+			switch sc := o.setCookie[k]; {
+			case sc == nil:
+				fail(i, name+"passed without a Set-Cookie for the CSRF cookie")
+			case o.ctxTok[k] == nil || *o.ctxTok[k] != sc.Value:
+				got := "nothing"
+				if o.ctxTok[k] != nil {
+					got = fmt.Sprintf("%q", *o.ctxTok[k])
+				}
+				fail(i, fmt.Sprintf("%sSet-Cookie token %q differs from the context token (%s)", name, sc.Value, got))
+			case reqCookie[k] != nil && sc.Value != *reqCookie[k]:
+				fail(i, fmt.Sprintf("%stoken %q is not the request cookie's %q", name, sc.Value, *reqCookie[k]))
+			case reqCookie[k] == nil && (len(sc.Value) != in.length || !c12Letters(sc.Value)):
+				fail(i, fmt.Sprintf("%sfresh token %q: want %d ASCII letters", name, sc.Value, in.length))
+			}
+			if sc := o.setCookie[k]; sc != nil && o.ctxTok[k] != nil {
+				retained = append(retained, kept{i, k, o.ctxTok[k], sc.Value})
+				if reqCookie[k] == nil && in.length >= 16 {
+					if j, dup := fresh[sc.Value]; dup && c.RealRandom {
+						fail(i, fmt.Sprintf("%sthe fresh token %q was already issued to request %d", name, sc.Value, j))
+					}
+					fresh[sc.Value] = i
+				}
 			}
 		}
+	}
+	// the token a handler was given must stay the token of that request's cookie whatever
+	// happens later (an application may keep it, e.g. to render it into a page)
+	for _, kp := range retained {
+		if *kp.tok != kp.cookie {
+			fail(kp.req, fmt.Sprintf("the context token handed to the handler has become %q after later requests; the Set-Cookie of its response carried %q", *kp.tok, kp.cookie))
+			break
+		}
+	}
+	if len(retained) > 1 {
+		tagset["tokens-kept-across-requests"] = true
 	}
 	switch c.ErrorHandler {
 	case 1:
@@ -456,12 +823,77 @@ func c12Run(ci any) Result {
 	case 2:
 		tagset["error-handler-returns-own-error"] = true
 	}
+	if c.Ctor == 1 {
+		tagset["ctor-CSRF()"] = true
+	}
+	if c.Skipper {
+		tagset["skipper-configured"] = true
+	}
+	if c.CookiePath != "" || c.CookieDomain != "" || c.CookieMaxAge != 0 || c.CookieSecure || c.CookieHTTPOnly || c.CookieSameSite != 0 {
+		tagset["cookie-attributes"] = true
+	}
+	if c.CookieSameSite == 4 {
+		tagset["samesite-none"] = true
+	}
+	if c.Extra != 0 {
+		tagset[[]string{"", "requestid-after-csrf", "requestid-before-csrf", "two-csrf-instances", "csrf-requestid-csrf"}[c.Extra]] = true
+	}
+	if len(c.Route) > 0 {
+		tagset["route-with-path-params"] = true
+	}
+	if c.Mount != 0 {
+		tagset[[]string{"", "registered-on-the-route", "registered-on-a-group"}[c.Mount]] = true
+	}
+	for _, rq := range c.Reqs {
+		if rq.Multipart {
+			tagset["multipart-body"] = true
+		}
+	}
 	var tags []string
 	for t := range tagset {
 		tags = append(tags, t)
 	}
 	sort.Strings(tags)
-	return Result{Ops: strings.Join(ops, " "), Obs: strings.Join(obs, " "), Oracle: oracle, Tags: tags, Nontrivial: nontrivial}
+	res := Result{Ops: strings.Join(ops, " "), Obs: strings.Join(obs, " "), Oracle: oracle, Tags: tags, Nontrivial: nontrivial}
+	if c.RealRandom {
+		res.Ops, res.Obs = "", ""
+		res.Tags = append(res.Tags, "real-crypto-rand(oracle only)")
+	}
+	return res
+}
+
+// the model op of one request
+func c12ReqOps(rq *c12Req, b c12Built) []string {
+	ops := []string{wStr(rq.Method), wInt(len(b.cookies))}
+	for _, ck := range b.cookies {
+		ops = append(ops, wStr(ck.Name), wStr(ck.Value))
+	}
+	var keys []string
+	nh := 0
+	for k, vs := range b.req.Header {
+		keys = append(keys, k)
+		nh += len(vs)
+	}
+	sort.Strings(keys)
+	ops = append(ops, wInt(nh))
+	for _, k := range keys {
+		for _, v := range b.req.Header[k] {
+			ops = append(ops, wStr(k), wStr(v))
+		}
+	}
+	ops = append(ops, wInt(len(rq.Query)))
+	for _, p := range rq.Query {
+		ops = append(ops, wStr(p[0]), wStr(p[1]))
+	}
+	ops = append(ops, wInt(len(rq.Form)))
+	for _, p := range rq.Form {
+		ops = append(ops, wStr(p[0]), wStr(p[1]))
+	}
+	ops = append(ops, wInt(len(b.params)))
+	for _, p := range b.params {
+		ops = append(ops, wStr(p[0]), wStr(p[1]))
+	}
+	return append(ops, wBool(rq.Multipart), wBytes(rq.Rnd))
 }
 
 // ---------- generator ----------
@@ -472,11 +904,19 @@ var c12Methods = []string{"GET", "HEAD", "OPTIONS", "TRACE", "POST", "POST", "PO
 var c12Lookups = []string{"", "header:X-CSRF-Token", "header:x-csrf-token", "form:csrf", "query:csrf",
 	"header:X-CSRF-Token,form:csrf,query:csrf", "query:csrf,header:X-XSRF-TOKEN", "form:_csrf,query:_csrf",
 	"header:Authorization:Bearer ", "header:X-Tok:tok-", "form:csrf,form:csrf2,header:X-CSRF-Token",
-	"query:csrf,query:t"}
+	"query:csrf,query:t",
+	// a prefix-cut header source as the LAST source (its "invalid value" error is then the one that is translated)
+	"form:csrf,header:X-Tok:tok-", "query:csrf,header:Authorization:Bearer ", "header:X-CSRF-Token,header:X-Tok:tok-"}
 
-// rare: ignored / failing / out-of-scope sources (tie only where the property does not apply)
-var c12OddLookups = []string{"headr:X-CSRF-Token", "header", "query:csrf,bogus", "param:id", "param:id,header:X-CSRF-Token",
-	"Header:X-CSRF-Token", "query:csrf,Form:csrf", "cookie:_csrf"}
+// sources CreateExtractors knows besides header/form/query: path parameters and cookies
+var c12ParamCookieLookups = []string{"param:tok", "param:id,header:X-CSRF-Token", "header:X-CSRF-Token,param:tok", "query:csrf,param:t",
+	"cookie:tokc", "query:csrf,cookie:tokc", "cookie:tokc,param:tok", "param:t"}
+
+// rare: ignored / failing sources (no known source at all: nothing is validated, compared with the model only)
+var c12OddLookups = []string{"headr:X-CSRF-Token", "header", "query:csrf,bogus", "param:id", "bogus:x,form:csrf",
+	"Header:X-CSRF-Token", "query:csrf,Form:csrf", "cookie:_csrf", "query", ","}
+
+var c12Routes = [][]string{{"id"}, {"tok"}, {"id", "tok"}, {"tok", "id", "tok"}, {"t", "t", "t"}, {"Tok", "tok"}, {"tok2", "TOK", "t"}}
 
 const c12CookieAlphabet = "ABCDEFGHIJKLMNOPQRSTUVWXYZabcdefghijklmnopqrstuvwxyz0123456789-_.~!#$%&'()*+/:<=>?@[]^`{|}"
 
@@ -601,14 +1041,14 @@ func c12Locs(lookup string) []c12Loc {
 		if len(p) > 2 {
 			l.pfx = p[2]
 		}
-		if l.kind == "header" || l.kind == "query" || l.kind == "form" {
+		if l.kind == "header" || l.kind == "query" || l.kind == "form" || l.kind == "param" || l.kind == "cookie" {
 			out = append(out, l)
 		}
 	}
 	return out
 }
 
-func c12Place(r *rand.Rand, rq *c12Req, l c12Loc, v string) {
+func c12Place(r *rand.Rand, route []string, rq *c12Req, l c12Loc, v string) {
 	switch l.kind {
 	case "header":
 		name := l.name
@@ -624,6 +1064,31 @@ func c12Place(r *rand.Rand, rq *c12Req, l c12Loc, v string) {
 		rq.Query = append(rq.Query, [2]string{l.name, v})
 	case "form":
 		rq.Form = append(rq.Form, [2]string{l.name, v})
+	case "cookie":
+		// bytes net/http would drop from a cookie value (with a log line) are hex-escaped instead
+		for i := 0; i < len(v); i++ {
+			if ch := v[i]; ch < 0x20 || ch >= 0x7f || ch == '"' || ch == ';' || ch == '\\' {
+				v = "v" + hex.EncodeToString([]byte(v))
+				break
+			}
+		}
+		rq.Cookies = append(rq.Cookies, [2]string{l.name, v})
+	case "param":
+		// the next free path parameter of that name (values must be plain path segments)
+		if !c12PathSafe(v) {
+			v = "v" + hex.EncodeToString([]byte(v))
+			if len(v) > 40 {
+				v = v[:40]
+			}
+		}
+		for len(rq.PathVals) < len(route) {
+			i := len(rq.PathVals)
+			if route[i] == l.name {
+				rq.PathVals = append(rq.PathVals, v)
+				return
+			}
+			rq.PathVals = append(rq.PathVals, []string{"x", "17", "other"}[r.Intn(3)])
+		}
 	}
 }
 
@@ -666,7 +1131,7 @@ func c12GenReq(r *rand.Rand, c *c12Case) c12Req {
 		rq.Method = []string{"POST", "PUT", "DELETE", "PATCH"}[r.Intn(4)]
 	}
 	locs := c12Locs(c.TokenLookup)
-	cookieName := c.effCookie()
+	cookieName := c12Eff(c.CookieName, "_csrf")
 	tok := c12Token(r)
 	hasCookie := false
 	switch x := r.Intn(10); {
@@ -690,7 +1155,52 @@ func c12GenReq(r *rand.Rand, c *c12Case) c12Req {
 		rq.Cookies = append([][2]string{{"session", "abc"}}, rq.Cookies...)
 	}
 	short := !hasCookie && r.Intn(25) == 0
-	rq.Rnd = c12Rnd(r, c.effLen(), short)
+	n1 := c.TokenLength
+	if n1 == 0 {
+		n1 = 32
+	}
+	n := n1
+	if c.Extra != 0 {
+		// room for the other consumers of the random source
+		n += 40
+		if c.Len2 == 0 {
+			n += 32
+		} else {
+			n += c.Len2
+		}
+	}
+	rq.Rnd = c12Rnd(r, n, short)
+	if c.Extra != 0 && !short && r.Intn(12) == 0 {
+		// enough for the first consumer or two, dry for a later one
+		if cut := (n1+n1/4)*(1+r.Intn(2)) + r.Intn(45); cut < len(rq.Rnd) {
+			rq.Rnd = rq.Rnd[:cut]
+		}
+	}
+	if c.Skipper && r.Intn(4) == 0 || r.Intn(40) == 0 {
+		rq.Headers = append(rq.Headers, [2]string{"X-Skip", []string{"1", "yes", "", "0"}[r.Intn(4)]})
+	}
+	if c.Extra != 0 && r.Intn(5) == 0 {
+		rq.Headers = append(rq.Headers, [2]string{[]string{"X-Request-Id", "X-Request-ID", "x-request-id"}[r.Intn(3)], []string{"req-1", "", "abcDEF"}[r.Intn(3)]})
+	}
+	if c.Extra == 3 || c.Extra == 4 {
+		// the second CSRF instance: cookie "_csrf2", token in the X-Csrf2 header or the csrf2 query parameter
+		tok2 := c12Token(r)
+		x := r.Intn(10)
+		if x < 7 {
+			rq.Cookies = append(rq.Cookies, [2]string{"_csrf2", tok2})
+		}
+		v := tok2
+		if r.Intn(4) == 0 {
+			v = c12NearMiss(r, tok2)
+		}
+		switch r.Intn(5) {
+		case 0:
+		case 1:
+			rq.Query = append(rq.Query, [2]string{"csrf2", v})
+		default:
+			rq.Headers = append(rq.Headers, [2]string{"X-Csrf2", v})
+		}
+	}
 	if len(locs) == 0 {
 		if r.Intn(2) == 0 {
 			rq.Headers = append(rq.Headers, [2]string{"X-CSRF-Token", tok})
@@ -714,22 +1224,26 @@ func c12GenReq(r *rand.Rand, c *c12Case) c12Req {
 		}
 		for k := 0; k < nvals; k++ {
 			if k == pos {
-				c12Place(r, &rq, loc, tok)
+				c12Place(r, c.Route, &rq, loc, tok)
 			} else {
-				c12Place(r, &rq, loc, c12NearMiss(r, tok))
+				c12Place(r, c.Route, &rq, loc, c12NearMiss(r, tok))
 			}
 		}
 		if r.Intn(3) == 0 && len(locs) > 1 { // a wrong token at another configured location
-			c12Place(r, &rq, locs[r.Intn(len(locs))], c12NearMiss(r, tok))
+			c12Place(r, c.Route, &rq, locs[r.Intn(len(locs))], c12NearMiss(r, tok))
 		}
 	case x < 11: // near misses only
 		k := 1 + r.Intn(3)
 		for i := 0; i < k; i++ {
-			c12Place(r, &rq, locs[r.Intn(len(locs))], c12NearMiss(r, tok))
+			c12Place(r, c.Route, &rq, locs[r.Intn(len(locs))], c12NearMiss(r, tok))
 		}
 	case x < 13: // nothing anywhere
 	case x < 16: // the right token at a location that is NOT configured / not parsed
-		switch r.Intn(7) {
+		sub := r.Intn(7)
+		if (loc.kind == "param" || loc.kind == "cookie") && r.Intn(2) == 0 {
+			sub = 0
+		}
+		switch sub {
 		case 5, 6: // same name, other kind of location
 			others := [][2]string{{"header", loc.name}, {"header", "X-" + loc.name}, {"query", loc.name}, {"form", loc.name}, {"cookie", loc.name}}
 			for _, o := range others {
@@ -760,6 +1274,7 @@ func c12GenReq(r *rand.Rand, c *c12Case) c12Req {
 			}
 		case 0:
 			rq.Query = append(rq.Query, [2]string{"CSRF", tok}, [2]string{"csrf_", tok})
+			c12LookAlikes(c, &rq, loc, tok)
 		case 1:
 			rq.Headers = append(rq.Headers, [2]string{"X-CSRF-Token-2", tok}, [2]string{"X-CSRFToken", tok})
 		case 2:
@@ -785,16 +1300,23 @@ func c12GenReq(r *rand.Rand, c *c12Case) c12Req {
 				rq.Method = "POST"
 			}
 		} else {
-			c12Place(r, &rq, loc, tok)
+			c12Place(r, c.Route, &rq, loc, tok)
 		}
 	default: // exact, simplest form
-		c12Place(r, &rq, loc, tok)
+		c12Place(r, c.Route, &rq, loc, tok)
 		if loc.kind == "form" && r.Intn(2) == 0 {
 			rq.Method = []string{"POST", "PUT", "PATCH"}[r.Intn(3)]
 		}
 	}
 	if r.Intn(6) == 0 {
 		rq.Headers = append(rq.Headers, [2]string{"X-Requested-With", "XMLHttpRequest"})
+	}
+	if strings.Contains(c.TokenLookup, "form:") && r.Intn(3) == 0 || r.Intn(30) == 0 {
+		// the body as multipart/form-data: parsed whatever the method
+		rq.Multipart = true
+		if r.Intn(2) == 0 {
+			rq.Method = []string{"DELETE", "POST", "PUT", "CUSTOM", "delete"}[r.Intn(5)]
+		}
 	}
 	if r.Intn(8) == 0 {
 		rq.Query = append(rq.Query, [2]string{"page", "2"})
@@ -812,57 +1334,185 @@ func c12Gen(r *rand.Rand, tier string) []any {
 	var out []any
 	for i := 0; i < n; i++ {
 		c := &c12Case{}
-		switch r.Intn(4) {
-		case 0:
-			c.TokenLength = 0
-		case 1:
-			c.TokenLength = 1 + r.Intn(255)
-		default:
-			c.TokenLength = c12Lengths[r.Intn(len(c12Lengths))]
+		if r.Intn(12) == 0 {
+			// the convenience constructor CSRF(): no configuration at all
+			c.Ctor = 1
+		} else {
+			switch r.Intn(4) {
+			case 0:
+				c.TokenLength = 0
+			case 1:
+				c.TokenLength = 1 + r.Intn(255)
+			default:
+				c.TokenLength = c12Lengths[r.Intn(len(c12Lengths))]
+			}
+			c.TokenLookup = c12Lookups[r.Intn(len(c12Lookups))]
+			switch x := r.Intn(50); {
+			case x < 2:
+				c.TokenLookup = c12OddLookups[r.Intn(len(c12OddLookups))]
+			case x < 8:
+				c.TokenLookup = c12ParamCookieLookups[r.Intn(len(c12ParamCookieLookups))]
+			}
+			c.CookieName = []string{"", "_csrf", "csrf", "XSRF-TOKEN"}[r.Intn(4)]
+			c.ContextKey = []string{"", "csrf", "tok"}[r.Intn(3)]
+			if r.Intn(3) == 0 {
+				c.ErrorHandler = 1 + r.Intn(2)
+			}
+			if r.Intn(3) == 0 {
+				c.CookiePath = []string{"", "/", "/app", "/a/b"}[r.Intn(4)]
+				c.CookieDomain = []string{"", "example.com", "sub.example.org"}[r.Intn(3)]
+				c.CookieMaxAge = []int{0, 1, 60, 3600, 86400, 86401, 31536000}[r.Intn(7)]
+				c.CookieSecure = r.Intn(3) == 0
+				c.CookieHTTPOnly = r.Intn(3) == 0
+				c.CookieSameSite = r.Intn(5)
+			}
+			c.Skipper = r.Intn(7) == 0
 		}
-		c.TokenLookup = c12Lookups[r.Intn(len(c12Lookups))]
-		if r.Intn(25) == 0 {
-			c.TokenLookup = c12OddLookups[r.Intn(len(c12OddLookups))]
+		if r.Intn(4) == 0 {
+			c.Extra = 1 + r.Intn(4)
+			c.Len2 = []int{0, 1, 8, 32, 33, 64, 204, 205, 255}[r.Intn(9)]
 		}
-		c.CookieName = []string{"", "_csrf", "csrf", "XSRF-TOKEN"}[r.Intn(4)]
-		c.ContextKey = []string{"", "csrf", "tok"}[r.Intn(3)]
-		if r.Intn(3) == 0 {
-			c.ErrorHandler = 1 + r.Intn(2)
+		if strings.Contains(c.TokenLookup, "param:") || r.Intn(30) == 0 {
+			c.Route = c12Routes[r.Intn(len(c12Routes))]
+			if strings.Contains(c.TokenLookup, "param:t") && !strings.Contains(c.TokenLookup, "param:tok") && r.Intn(2) == 0 {
+				c.Route = nil
+				for k := 0; k < 22; k++ {
+					c.Route = append(c.Route, "t") // more same-named parameters than the extractor limit
+				}
+			}
+		}
+		if r.Intn(4) == 0 {
+			c.Mount = 1 + r.Intn(2)
 		}
 		k := 1 + r.Intn(3)
+		if r.Intn(8) == 0 {
+			k = 4
+		}
 		for j := 0; j < k; j++ {
 			c.Reqs = append(c.Reqs, c12GenReq(r, c))
+		}
+		if i%60 == 59 {
+			// the real random source: several cookie-less requests, oracle only
+			c.RealRandom = true
+			for j := range c.Reqs {
+				c.Reqs[j].GuessFresh = ""
+				c.Reqs[j].Rnd = nil
+			}
+			for j := 0; j < 3; j++ {
+				c.Reqs = append(c.Reqs, c12Req{Method: []string{"GET", "HEAD", "POST"}[r.Intn(3)]})
+			}
 		}
 		out = append(out, c)
 	}
 	return out
 }
 
-// the property's quantifier ranges over header/form/query lookups: configurations with an
-// ignored, failing or cookie/param source are compared with the model only
-func c12InScope(c *c12Case) bool {
-	for _, src := range strings.Split(c.effLookup(), ",") {
-		p := strings.Split(src, ":")
-		if len(p) < 2 {
-			return false
+// c12LookAlikes puts the token under names that look like the configured one (longer, shorter, other
+// case) at the same kind of location: none of them is a configured lookup location
+func c12LookAlikes(c *c12Case, rq *c12Req, loc c12Loc, tok string) {
+	names := []string{loc.name + "2", loc.name + "_", "x" + loc.name, strings.ToUpper(loc.name), strings.ToLower(loc.name), c12SwapCase(loc.name)}
+	if len(loc.name) > 1 {
+		names = append(names, loc.name[:len(loc.name)-1])
+	}
+	switch loc.kind {
+	case "param":
+		// under every path parameter whose name is NOT the configured one
+		if c12PathSafe(tok) {
+			rq.PathVals = nil
+			for _, n := range c.Route {
+				if n == loc.name {
+					rq.PathVals = append(rq.PathVals, "x")
+				} else {
+					rq.PathVals = append(rq.PathVals, tok)
+				}
+			}
 		}
-		if p[0] != "header" && p[0] != "query" && p[0] != "form" {
-			return false
+	case "cookie":
+		csrfCookie := c12Eff(c.CookieName, "_csrf")
+		for _, n := range names {
+			if n != loc.name && n != csrfCookie && n != "_csrf2" {
+				rq.Cookies = append(rq.Cookies, [2]string{n, tok})
+			}
+		}
+	case "query":
+		for _, n := range names {
+			if n != loc.name && !c12Configured(c, "query", n) && !c12Configured(c, "form", n) {
+				rq.Query = append(rq.Query, [2]string{n, tok})
+			}
+		}
+	case "form":
+		for _, n := range names {
+			if n != loc.name && !c12Configured(c, "form", n) {
+				rq.Form = append(rq.Form, [2]string{n, tok})
+			}
+		}
+	case "header":
+		for _, n := range names[:3] { // header names are case-insensitive
+			if !c12Configured(c, "header", n) {
+				rq.Headers = append(rq.Headers, [2]string{n, loc.pfx + tok})
+			}
 		}
 	}
-	return true
 }
 
-func c12RunScoped(ci any) Result {
-	res := c12Run(ci)
-	c := ci.(*c12Case)
-	if !c12InScope(c) {
-		res.Tags = append(res.Tags, "lookup-out-of-scope(tie only)")
-		if !strings.Contains(res.Oracle, "does not terminate") && !strings.Contains(res.Oracle, "panic") {
-			res.Oracle = ""
+// c12Configured: the lookup string (of either CSRF instance) names this location
+func c12Configured(c *c12Case, kind, name string) bool {
+	for _, l := range append(c12Locs(c.TokenLookup), c12Loc{kind: "header", name: "X-Csrf2"}, c12Loc{kind: "query", name: "csrf2"}) {
+		if l.kind == kind && (l.name == name || kind == "header" && strings.EqualFold(l.name, name)) {
+			return true
 		}
 	}
-	return res
+	return false
+}
+
+// c12Mutate: neighbours for the failing-input search around a model/implementation disagreement:
+// the same requests with a non-empty CSRF cookie, an unsafe standard method, without client tokens
+func c12Mutate(r *rand.Rand, ci any) []any {
+	c := ci.(*c12Case)
+	var out []any
+	name := c12Eff(c.CookieName, "_csrf")
+	for i := range c.Reqs {
+		variant := func(f func(*c12Req)) {
+			d := *c
+			d.Reqs = append([]c12Req(nil), c.Reqs...)
+			nr := d.Reqs[i]
+			nr.Cookies = append([][2]string(nil), nr.Cookies...)
+			nr.Headers = append([][2]string(nil), nr.Headers...)
+			f(&nr)
+			d.Reqs[i] = nr
+			out = append(out, &d)
+		}
+		setCookie := func(n *c12Req) {
+			for k := range n.Cookies {
+				if n.Cookies[k][0] == name {
+					n.Cookies[k][1] = "MutatedCookieTokenABCDEFGHIJKLMN"
+					return
+				}
+			}
+			n.Cookies = append(n.Cookies, [2]string{name, "MutatedCookieTokenABCDEFGHIJKLMN"})
+		}
+		variant(setCookie)
+		variant(func(n *c12Req) { setCookie(n); n.Method = "POST" })
+		variant(func(n *c12Req) { n.Method = "POST" })
+		variant(func(n *c12Req) { setCookie(n); n.Method = "POST"; n.Query, n.Form = nil, nil })
+		variant(func(n *c12Req) {
+			setCookie(n)
+			for k := range n.Headers {
+				n.Headers[k][1] += "x"
+			}
+		})
+		for _, loc := range c12Locs(c.TokenLookup) {
+			loc := loc
+			variant(func(n *c12Req) {
+				setCookie(n)
+				n.Method = "POST"
+				n.Query = append([][2]string(nil), n.Query...)
+				n.Form = append([][2]string(nil), n.Form...)
+				c12LookAlikes(c, n, loc, "MutatedCookieTokenABCDEFGHIJKLMN")
+			})
+		}
+	}
+	return out
 }
 
 func c12Shrink(ci any) []any {
@@ -916,6 +1566,40 @@ func c12Shrink(ci any) []any {
 		d.ContextKey = ""
 		out = append(out, &d)
 	}
+	if c.Extra != 0 {
+		d := *c
+		d.Extra = 0
+		out = append(out, &d)
+		if c.Extra > 1 {
+			d2 := *c
+			d2.Extra = 1
+			out = append(out, &d2)
+		}
+	}
+	if c.Skipper {
+		d := *c
+		d.Skipper = false
+		out = append(out, &d)
+	}
+	if c.Mount != 0 {
+		d := *c
+		d.Mount = 0
+		out = append(out, &d)
+	}
+	if c.CookiePath != "" || c.CookieDomain != "" || c.CookieMaxAge != 0 || c.CookieSecure || c.CookieHTTPOnly || c.CookieSameSite != 0 {
+		d := *c
+		d.CookiePath, d.CookieDomain, d.CookieMaxAge, d.CookieSecure, d.CookieHTTPOnly, d.CookieSameSite = "", "", 0, false, false, 0
+		out = append(out, &d)
+	}
+	if len(c.Route) > 0 && !strings.Contains(c.TokenLookup, "param:") {
+		d := *c
+		d.Route = nil
+		d.Reqs = append([]c12Req(nil), c.Reqs...)
+		for i := range d.Reqs {
+			d.Reqs[i].PathVals = nil
+		}
+		out = append(out, &d)
+	}
 	if c.ErrorHandler != 0 {
 		d := *c
 		d.ErrorHandler = 0
@@ -927,12 +1611,13 @@ func c12Shrink(ci any) []any {
 func init() {
 	register(&Prop{
 		ID:             "C12",
-		Rule:           "one CSRF middleware per case (TokenLength 0/1..255 with the uint8 boundaries 203..208, 254, 255; 12 TokenLookup shapes with 1-3 sources, prefix cut, non-canonical header names; 4% ignored/failing/param/cookie sources, compared with the model only; a third with a custom ErrorHandler that writes its own 418 and returns nil, or returns its own 409 error) x 1-3 requests: 27 method spellings (standard, lower/mixed case, padded, custom, empty) x cookie present/empty/absent/look-alike name/duplicated x client token exact (alone, among 3/20/21/25 values, beside wrong tokens at other sources), near miss (prefix, suffix, case change, padding, NUL, bit flip, empty), absent, at a non-configured or unparsed location, or guessed fresh token; random source = seeded byte stream per request (uniform, mostly rejected bytes, boundary bytes 200..215, whole first buffer rejected, too short); non-trivial = an unsafe request that passed, or was rejected although cookie and client tokens were present; distinct = distinct model op lines",
+		Rule:           "one CSRF middleware per case, built with CSRFWithConfig (TokenLength 0/1..255 with the uint8 boundaries 203..208, 254, 255; 15 header/form/query TokenLookup shapes with 1-3 sources, prefix cut (also as the LAST source), non-canonical header names; 12% param:/cookie: sources on routes with 1-3 or 22 path parameters; 4% ignored/failing sources (no known source: compared with the model only); a third with a custom ErrorHandler that writes its own 418 and returns nil, or returns its own 409 error; a third with cookie options Path/Domain/MaxAge/Secure/HttpOnly/SameSite 0..4; a seventh with a Skipper on the X-Skip header) or with the convenience constructor CSRF() (8%); a quarter of the cases stack other consumers of the random source on the same Echo: RequestID() after or before CSRF, a second CSRF instance (own cookie, context key, lookup, token length), or CSRF + RequestID() + second CSRF; x 1-4 requests: 27 method spellings (standard, lower/mixed case, padded, custom, empty) x cookie present/empty/absent/look-alike name/duplicated x client token exact (alone, among 3/20/21/25 values, beside wrong tokens at other sources), near miss (prefix, suffix, case change, padding, NUL, bit flip, empty), absent, at a non-configured, look-alike-named or unparsed location, or guessed fresh token; random source = seeded byte stream per request delivered one byte per Read (uniform, mostly rejected bytes, boundary bytes 200..215, whole first buffer rejected, too short for the first or for a later consumer), shared by all consumers of the request; every token a handler found in its context is kept (the very string) and compared again with its Set-Cookie after all later requests; every 60th case runs on the real crypto/rand (oracle only: length, letters, Set-Cookie = context, no token issued twice); CreateExtractors is also called directly on the configured string; non-trivial = an unsafe request that passed, or was rejected although cookie and client tokens were present; distinct = distinct model op lines",
 		New:            func() any { return &c12Case{} },
 		Gen:            c12Gen,
-		Run:            c12RunScoped,
+		Run:            c12Run,
 		Shrink:         c12Shrink,
+		Mutate:         c12Mutate,
 		Serial:         true,
-		Correspondence: "C12.serve / C12.randomString (lean/EchoModel/C12.lean) vs middleware.CSRFWithConfig + extractors + randomString with the injected random source",
+		Correspondence: "C12.serveStack / C12.handle / C12.serve / C12.randomStringR / C12.cookieAttrs / C12.createExtractors (lean/EchoModel/C12.lean) vs middleware.CSRF / CSRFWithConfig (+ RequestID) + extractors + randomString with the injected random source",
 	})
 }
